@@ -208,13 +208,14 @@ pub fn apply_bessel<D: BesselDual>(op: Op, x: D) -> D {
 /// Rounding-error constants (multiples of the unit roundoff), DESIGN 2.5.
 pub fn kappa(op: Op) -> f64 {
     use Op::*;
+    // calibrated on the pinned tree (DESIGN 2.5): next power of two >= 4 x the largest observed
+    // ratio of the class, capped at 2^10
     match op {
-        Add | Sub | Neg | AddF(_) | SubF(_) | Abs | Signum | AbsSub => 1.0,
-        Mul | MulF(_) | DivF(_) => 4.0,
-        Div | Recip | Inv => 8.0,
-        MulAdd => 8.0,
-        Tan | Tanh | Atan2 | Powd | SphJ0 | SphJ1 | SphJ2 | BesselJ2 => 32.0,
-        _ => 16.0,
+        Add | Sub | Neg | AddF(_) | SubF(_) | Abs | Signum | AbsSub => 2.0,
+        Mul | MulF(_) | DivF(_) => 8.0,
+        Div | Recip | Inv => 32.0,
+        MulAdd => 16.0,
+        _ => 128.0,
     }
 }
 
@@ -242,10 +243,31 @@ fn deriv_coefs(c: &[DD]) -> Vec<DD> {
     (1..c.len()).map(|k| c[k].mul_f(k as f64)).collect()
 }
 
+thread_local! {
+    static TAYLOR_CACHE: std::cell::RefCell<std::collections::HashMap<(String, u64, u64, usize), Vec<DD>>> = std::cell::RefCell::new(std::collections::HashMap::new());
+}
+
+/// memoised Taylor coefficients (the same point is visited with many part assignments)
+pub fn cached_taylor(f: Func, a0: DD, k: usize) -> Vec<DD> {
+    let key = (format!("{f:?}"), a0.hi.to_bits(), a0.lo.to_bits(), k);
+    TAYLOR_CACHE.with(|c| {
+        let mut c = c.borrow_mut();
+        if let Some(v) = c.get(&key) {
+            return v.clone();
+        }
+        if c.len() > 20000 {
+            c.clear();
+        }
+        let v = taylor_dd(f, a0, k);
+        c.insert(key, v.clone());
+        v
+    })
+}
+
 /// unary smooth function: value, majorant M = sum |c_k| |N|^k, propagated input error |g'|(|X|) E_in
 fn smooth(f: Func, x: &Val, kap: f64, u: f64) -> Val {
     let k = x.v.shape.maxdeg;
-    let c = taylor_dd(f, *x.v.re(), k + 1);
+    let c = cached_taylor(f, *x.v.re(), k + 1);
     let v = x.v.apply(&c[..=k]);
     let ax = x.v.abs();
     let m = ax.apply(&abs_coefs(&c[..=k]));
@@ -284,9 +306,9 @@ fn atan2_val(y: &Val, x: &Val, u: f64) -> Val {
     let r2 = *xp.re();
     // q = Y'/X' is nilpotent; atan(q) = q - q^3/3 + q^5/5 ...
     let k = x.v.shape.maxdeg;
-    let rc = taylor_dd(Func::Recip, r2, k);
+    let rc = cached_taylor(Func::Recip, r2, k);
     let q = yp.mul(&xp.apply(&rc));
-    let ac = taylor_dd(Func::Atan, DD::ZERO, k);
+    let ac = cached_taylor(Func::Atan, DD::ZERO, k);
     let v = q.apply(&ac).add_re(&base);
     // majorant: the same expression with absolute values
     let axp = x.v.abs().scale(&x0.abs_dd()).add(&y.v.abs().scale(&y0.abs_dd()));
@@ -346,13 +368,13 @@ pub fn apply_ref(op: Op, a: &[Val], u: f64) -> Val {
         Atan2 => atan2_val(x, &a[1], u),
         Powd => {
             // exp(n ln x) evaluated in the reference algebra
-            let l = smooth(Func::Ln, x, 16.0, u);
-            let p = mul_val(&l, &a[1], 4.0, u);
-            smooth(Func::Exp, &p, 16.0, u)
+            let l = smooth(Func::Ln, x, kappa(Ln), u);
+            let p = mul_val(&l, &a[1], kappa(Mul), u);
+            smooth(Func::Exp, &p, kappa(Exp), u)
         }
         MulAdd => {
-            let p = mul_val(x, &a[1], 4.0, u);
-            add_val(&p, &a[2], false, 1.0, u)
+            let p = mul_val(x, &a[1], kappa(Mul), u);
+            add_val(&p, &a[2], false, kappa(Add), u)
         }
         _ => {
             let f = op.func().unwrap_or_else(|| panic!("MACHINERY: no reference semantics for {op:?}"));
@@ -366,42 +388,56 @@ pub fn apply_ref(op: Op, a: &[Val], u: f64) -> Val {
 pub fn defining_bound(op: Op, a: &[Val], u: f64) -> Option<Jet<DD>> {
     use Op::*;
     let x = &a[0];
+    if matches!(op, SphJ0 | SphJ1 | SphJ2) && x.v.re().abs_dd().hi < 2.0 * u {
+        // inside the small-argument series region the closed form is not the defining expression
+        return None;
+    }
     let r = match op {
         Tan => {
-            let s = smooth(Func::Sin, x, 16.0, u);
-            let c = smooth(Func::Cos, x, 16.0, u);
+            let s = smooth(Func::Sin, x, kappa(Sin), u);
+            let c = smooth(Func::Cos, x, kappa(Cos), u);
             apply_ref(Div, &[s, c], u).e
         }
         Tanh => {
-            let s = smooth(Func::Sinh, x, 16.0, u);
-            let c = smooth(Func::Cosh, x, 16.0, u);
+            let s = smooth(Func::Sinh, x, kappa(Sinh), u);
+            let c = smooth(Func::Cosh, x, kappa(Cosh), u);
             apply_ref(Div, &[s, c], u).e
         }
         SphJ0 => {
-            let s = smooth(Func::Sin, x, 16.0, u);
+            let s = smooth(Func::Sin, x, kappa(Sin), u);
             apply_ref(Div, &[s, x.clone()], u).e
         }
         SphJ1 => {
             // (s - x c) / x^2
-            let s = smooth(Func::Sin, x, 16.0, u);
-            let c = smooth(Func::Cos, x, 16.0, u);
-            let xc = mul_val(x, &c, 4.0, u);
-            let num = add_val(&s, &xc, true, 1.0, u);
-            let den = mul_val(x, x, 4.0, u);
+            let s = smooth(Func::Sin, x, kappa(Sin), u);
+            let c = smooth(Func::Cos, x, kappa(Cos), u);
+            let xc = mul_val(x, &c, kappa(Mul), u);
+            let num = add_val(&s, &xc, true, kappa(Sub), u);
+            let den = mul_val(x, x, kappa(Mul), u);
             apply_ref(Div, &[num, den], u).e
         }
         SphJ2 => {
             // ((s - x c) 3 - x^2 s) / x^3
-            let s = smooth(Func::Sin, x, 16.0, u);
-            let c = smooth(Func::Cos, x, 16.0, u);
-            let xc = mul_val(x, &c, 4.0, u);
-            let d = add_val(&s, &xc, true, 1.0, u);
+            let s = smooth(Func::Sin, x, kappa(Sin), u);
+            let c = smooth(Func::Cos, x, kappa(Cos), u);
+            let xc = mul_val(x, &c, kappa(Mul), u);
+            let d = add_val(&s, &xc, true, kappa(Sub), u);
             let d3 = apply_ref(MulF(3.0), &[d], u);
-            let x2 = mul_val(x, x, 4.0, u);
-            let x2s = mul_val(&x2, &s, 4.0, u);
-            let num = add_val(&d3, &x2s, true, 1.0, u);
-            let den = mul_val(&x2, x, 4.0, u);
+            let x2 = mul_val(x, x, kappa(Mul), u);
+            let x2s = mul_val(&x2, &s, kappa(Mul), u);
+            let num = add_val(&d3, &x2s, true, kappa(Sub), u);
+            let den = mul_val(&x2, x, kappa(Mul), u);
             apply_ref(Div, &[num, den], u).e
+        }
+        Atan2 => {
+            // atan of the better-conditioned quotient
+            let (y, x2) = (x, &a[1]);
+            let (y0, x0) = (y.v.re().abs_dd(), x2.v.re().abs_dd());
+            if x0.is_zero() || y0.is_zero() {
+                return None;
+            }
+            let q = if y0.le(x0) { apply_ref(Div, &[y.clone(), x2.clone()], u) } else { apply_ref(Div, &[x2.clone(), y.clone()], u) };
+            smooth(Func::Atan, &q, kappa(Atan), u).e
         }
         _ => return None,
     };
